@@ -9,6 +9,7 @@ import (
 	"strconv"
 	"strings"
 	"time"
+	"unicode/utf8"
 )
 
 const Namespace = "DAV:"
@@ -383,6 +384,10 @@ func (etag *ETag) UnmarshalText(b []byte) error {
 	// strconv.Unquote also accepts Go character and raw string literals
 	if len(b) < 2 || b[0] != '"' || b[len(b)-1] != '"' {
 		return fmt.Errorf("webdav: failed to unquote ETag: not a double-quoted string")
+	}
+	// strconv.Unquote silently replaces invalid UTF-8 with U+FFFD
+	if !utf8.Valid(b) {
+		return fmt.Errorf("webdav: failed to unquote ETag: invalid UTF-8")
 	}
 	s, err := strconv.Unquote(string(b))
 	if err != nil {
